@@ -9,6 +9,11 @@
 //! bytes after a nested enum's field, C15-C unknown field in a named variant body rejected); their
 //! reproductions live in /verif/regressions/C15 and their triggers are generated and asserted here
 //! like everything else.
+//!
+//! Two further suspected defects are reported and, until triaged, excluded by independent trigger
+//! predicates and counted (`Outcome.excluded`; asserted in strict mode): C15-D, a well-formed unknown
+//! field in front of the variant field of an enum / Result is rejected (unknown-discriminant), and
+//! C15-E, a non-UTF-8 `PathBuf` in a `string` field packs bytes its own unpack rejects.
 
 mod gens;
 mod model;
@@ -1047,7 +1052,7 @@ fn main() {
     let check = Check::new(
         "C15",
         "exploration",
-        "proptest: a value of one of 15 derived message types (all scalar field types, fixed-size bytes, strings, optional, repeated, nested to depth 4, recursive, enums with unit/unnamed/named variants, Result; integers on 2^k-1/2^k/2^k+1 and their negations, floats on special values and NaN payloads, lengths on 127/128 and 16383/16384) is generated once as a dynamic tree and lowered to the typed value and to an independent wire encoder. Parts: round trip (pack_sz = length, bytes = reference wire encoding, unpack = value bitwise); unknown fields of every wire type (and malformed ones) spliced at field boundaries of any depth; random bytes and structure-aware mutations of valid encodings (non-canonical/over-long varints inside consistent lengths, truncation, bit flips, insert/delete); every 1..10-byte varint on the exact-length (slow) and padded (fast) decoder; tags and FieldIterator against an independent wire walker; concatenated encodings enc(a) ++ enc(b) of struct-shaped types decode to the protocol-buffers merge (last occurrence of singular scalar / bytes / string fields, last present optional, repeated fields appended; message-typed singular fields not asserted). Non-trivial: round trip - >= 3 encoded fields and a boundary integer, special float, nested message or non-empty repeated field; splice - >= 1 field spliced into a value with >= 2 encoded fields; bytes - >= 2 input bytes; varint - every case; iterator - >= 2 fields. Distinct by structural hash of the case.",
+        "proptest: a value of one of 20 derived message types (all scalar field types, fixed-size bytes, strings, `string` and `bytes` fields held in PathBuf, optional, repeated, nested to depth 4, recursive, derive on named / tuple / unit structs, enums with unit/unnamed/named variants - named variants with u64, message, repeated, [u8; 64], [u8; 16], bytes, string, float, fixed-width, bool, optional double and PathBuf fields -, Result; integers on 2^k-1/2^k/2^k+1 and their negations, floats on special values and NaN payloads, lengths on 127/128 and 16383/16384) is generated once as a dynamic tree and lowered to the typed value and to an independent wire encoder. Parts: round trip (pack_sz = length, bytes = reference wire encoding, unpack = value bitwise); unknown fields of every wire type (and malformed ones) spliced at field boundaries of any depth: between the fields of struct bodies and named-variant bodies, after the variant field of a nested enum / Result, and - second selector - before the variant field of a nested or top-level enum / Result and after the variant field of a top-level one (whose unpack hands the spliced bytes back as the remainder); random bytes and structure-aware mutations of valid encodings (non-canonical/over-long varints inside consistent lengths, truncation, bit flips, insert/delete); every 1..10-byte varint on the exact-length (slow) and padded (fast) decoder; tags and FieldIterator against an independent wire walker; concatenated encodings enc(a) ++ enc(b) of struct-shaped types decode to the protocol-buffers merge (last occurrence of singular scalar / bytes / string fields, last present optional, repeated fields appended; message-typed singular fields not asserted). Non-trivial: round trip - >= 3 encoded fields and a boundary integer, special float, nested message or non-empty repeated field; splice - >= 1 field spliced into a value with >= 2 encoded fields or with an enum / Result in it; bytes - >= 2 input bytes; varint - every case; iterator - >= 2 fields. Distinct by structural hash of the case.",
     )
     .assume("fields are written in declaration order, zero/empty values are always written, repeated scalars are not packed, a unit enum variant is an empty length-delimited field: legal protobuf encodings chosen by prototk_derive, mirrored by the reference encoder")
     .assume("wire types 3, 4, 6, 7 and field numbers 0 / 19000..19999 / >= 2^29 are documented as rejected; for those only 'no panic, and Ok implies the known fields are undisturbed' is asserted on messages (the rejection itself is asserted on Tag::unpack)")
@@ -1055,6 +1060,9 @@ fn main() {
     .assume("a non-canonical varint in a field the reader knows is rejected (FieldIterator hands out the canonical-length prefix); the property allows value-or-error, so this is labelled, not asserted")
     .assume("an SError inside Result packs as its handled display text; only texts that handled itself re-parses identically are used, the text is treated as opaque by the reference encoder")
     .assume("bytes after the variant field of a nested enum / Result: well-formed unknown fields must be skipped (decode Ok, equal); malformed ones may be rejected")
+    .assume("suspected finding C15-D (reported, not yet triaged): a derived enum and Result take the FIRST field of their bytes as the variant, so a well-formed unknown field spliced BEFORE the variant field is answered with unknown-discriminant. Trigger = such a splice (known from the generated plan alone). Outside strict mode the spliced bytes must still not panic and, if accepted, must leave the value undisturbed; the rejection is counted under C15-D and the same case is judged in full with the triggering splices left out")
+    .assume("suspected finding C15-E (reported, not yet triaged): a PathBuf that is not UTF-8 in a `string` field packs its raw bytes (asserted: pack_sz, all pack variants, reference bytes) which the field's own unpack rejects with string-encoding. Trigger = some string x PathBuf leaf of the generated value is not valid UTF-8 (about 1 leaf in 40). Outside strict mode the unpack half of such cases is not asserted beyond 'no panic; Ok implies equal' and the case is counted under C15-E")
+    .assume("a top-level enum / Result returns the bytes after its variant field as the remainder of unpack (that is the buffertk contract for values packed back to back); a remainder equal to exactly the spliced bytes, or none, is accepted there")
     .pbt(RoundTrip)
     .pbt(Splice)
     .pbt(AnyBytes)
